@@ -17,6 +17,8 @@ import PowHsm.Spec.C10
 import PowHsm.Spec.Cert
 import PowHsm.Admin.CertParse
 import PowHsm.Admin.Verify
+import PowHsm.Admin.SignerAuth
+import PowHsm.Admin.IntelHex
 namespace PowHsm
 namespace Ops
 open Ledger Comm Dongle Spec
@@ -292,6 +294,71 @@ def verify (input implOut : Json) : Option (Json × Bool) := do
           ++ (match p.powhsm with | some pm => pmFields pm | none => [])))]
   pure (model, model.normalize == implOut.normalize)
 
+/-- C17: signer version message + `authorize_signer` exchange.  Oracle: what the device checks
+    (firmware `signer_authorization.c`): SIGVER carries hash ‖ BE16(iteration), signatures follow
+    in file order, stopping at the first "authorized". -/
+def sigauth (input implOut : Json) : Option (Json × Bool) := do
+  let hash ← input.get? "hash"
+  let it ← input.get? "iteration"
+  let sigs := bytesList (input.get? "signatures")
+  let w ← worldOfJson input
+  let model : Json :=
+    match SignerAuth.mkVersion hash it with
+    | none => .obj [("version_ok", .bool false)]
+    | some v =>
+      let m := SignerAuth.msg v
+      let r := SignerAuth.authorizeSigner v sigs w
+      .obj [("version_ok", .bool true), ("msg", .str (String.ofList m)),
+            ("eth", Json.ofBytes (SignerAuth.toAscii (SignerAuth.ethMessage m))),
+            ("stored", .obj [("hash", .str v.hash), ("iteration", .int v.iteration)]),
+            ("events", evsToJson r.evs),
+            ("result", .str (match r.val with | .ok _ => "ok" | .error e => "error:" ++ e.name))]
+  -- property-level oracle on the implementation's trace
+  let ok : Bool :=
+    match implOut.get? "version_ok" with
+    | some (.bool false) => (SignerAuth.mkVersion hash it).isNone
+    | some (.bool true) =>
+      match SignerAuth.mkVersion hash it, (implOut.get? "events").bind evsOfJson?, (implOut.get? "result").bind Json.asStr? with
+      | some v, some evs, some res =>
+        let as := apdus evs
+        let hashBytes := (Py.fromHex v.hash).getD []
+        let answers := w.script.drop 1
+        -- index of the first signature the device answers "authorized" (0x02) to
+        let firstOk := (sigs.zip answers).findIdx? fun (_, r) =>
+          match r with | .data b => b.getD 3 0 == 2 | _ => false
+        -- the text to be signed and its Ethereum wrapping, as the property spells them
+        implOut.get? "msg" == some (.str (String.ofList (SignerAuth.msg v))) &&
+        implOut.get? "eth" == some (Json.ofBytes (SignerAuth.toAscii (SignerAuth.ethMessage (SignerAuth.msg v)))) &&
+        as.head? == some ([0x80, 0x51, 0x01] ++ hashBytes ++ Bytes.be 2 v.iteration) &&
+        (match w.script.head? with
+         | some (.data _) =>
+           (match firstOk with
+            | some k =>
+              -- if every earlier answer was a plain "more", exactly k+1 signatures were sent, in order
+              let clean := (answers.take k).all fun r => match r with | .data b => b.length ≥ 4 | _ => false
+              !clean || (as.drop 1 == (sigs.take (k + 1)).map (fun s => [0x80, 0x51, 0x02] ++ s) && res == "ok")
+            | none =>
+              let clean := (answers.take sigs.length).all fun r => match r with | .data b => b.length ≥ 4 | _ => false
+              !clean || answers.length < sigs.length ||
+                (as.drop 1 == sigs.map (fun s => [0x80, 0x51, 0x02] ++ s) && res != "ok"))
+         | _ => res != "ok")
+      | _, _, _ => false
+    | _ => false
+  pure (model, ok)
+
+/-- C19: Intel-HEX parsing and what `compute_app_hash` hashes.  `image` (when present) is the
+    generator's own ground truth: the bytes of the image's data areas in address order. -/
+def hexhash (input implOut : Json) : Option (Json × Bool) := do
+  let recs := bytesList (input.get? "records")
+  let model : Json := match IntelHex.parse recs with
+    | none => .str "error"
+    | some as => .obj [("areas", .arr (as.map fun a => .arr [.int a.start, Json.ofBytes a.data])),
+                       ("hashed", Json.ofBytes ((as.map (·.data)).flatten))]
+  let ok := match input.get? "image" with
+    | some img => (implOut.get? "hashed") == some img
+    | none => true
+  pure (model, ok && model.normalize == implOut.normalize)
+
 def run (op : String) (input implOut : Json) : Option (Json × Bool) :=
   match op with
   | "unsign" => unsign input implOut
@@ -321,6 +388,8 @@ def run (op : String) (input implOut : Json) : Option (Json × Bool) :=
   | "certvalidate" => certvalidate input implOut
   | "certload" => certload input implOut
   | "verify" => verify input implOut
+  | "sigauth" => sigauth input implOut
+  | "hexhash" => hexhash input implOut
   | _ => none
 
 end Ops
